@@ -1,5 +1,6 @@
 import Jmes.Generated.Shape
 import Jmes.Tie.Common
+import Jmes.Tie.Errors
 namespace Jmes.Tie
 open Jmes.Generated
 set_option maxRecDepth 100000
@@ -48,6 +49,31 @@ theorem operand_powers :
 /-- [C08] no public error type has an `Unwrap` or `As` method: `errors.Is` can match a public error only through its
     single `Is` method -/
 theorem public_errors_only_is : (errorMethods.filter (fun m => m.1 == "jmespath")).all (fun m => m.2.2 == "Is") = true := by decide
+
+/-- [C08] every `Is` method is the single comparison `target == <sentinel>` recorded in `isTable`: an error matches its
+    one sentinel and nothing else under `errors.Is` -/
+theorem is_methods_single_comparison :
+    (isBodies.all (fun b => isTable.any (fun r => r.1 == b.1 && r.2.1 == b.2.1 && b.2.2 == "target == " ++ r.2.2))
+     && isBodies.length == isTable.length) = true := by decide
+
+/-- [C08] the exported sentinels (and the internal ones) are distinct values, each made by its own `errors.New`: no
+    sentinel is an alias of another, so "exactly one category" is meaningful -/
+theorem sentinels_distinct : sentinelInits.all (fun s => s.2.2 == "errors.New") = true := by decide
+
+/-- the model's category for what `evaluateError` tests -/
+def testedCat : String → Option Cat
+  | "ErrInvalidType" => some .invalidType | "ErrInvalidValue" => some .invalidValue
+  | "ErrInfinity" => some .notANumber | "ErrNotANumber" => some .notANumber
+  | "UndefinedVariableError" => some .undefinedVariable | "<fallback>" => some .evaluationFailed
+  | _ => none
+
+/-- [C08] `evaluateError` pairs each tested internal category with the public error type of the SAME category (the
+    tests cannot be swapped without breaking this), and tests for each internal category once -/
+theorem evaluate_pairs_tie :
+    (evaluateErrorMap.all (fun r => (testedCat r.1).isSome && testedCat r.1 == publicCat r.2)
+     && sameSet (evaluateErrorMap.map (·.1))
+          ["ErrInvalidType", "ErrInvalidValue", "ErrInfinity", "ErrNotANumber", "UndefinedVariableError", "<fallback>"]
+     && evaluateErrorMap.length == 6) = true := by decide
 
 /-- [C06, C07] no struct of the four packages has a field whose type mentions a channel, a function value,
     unsafe.Pointer or a type of package sync: AST nodes, compiled expressions and per-call state are plain data -/
